@@ -239,6 +239,18 @@ impl Check for C20 {
         }
         o.user = if pick(cx, 0.3) { Some("root".to_string()) } else { None };
         o.user_mode = cx.rng.gen_bool(0.3);
+        // a user-mode install that leaves the directories at their defaults (the per-user data directory; the manager
+        // then appends "<service>/logs" for the log output): XDG_DATA_HOME points into this case's scratch root
+        if o.user_mode && cx.rng.gen_bool(0.5) {
+            std::env::set_var("XDG_DATA_HOME", root.join("xdg"));
+            if let Ok(d) = ant_node_manager::config::get_user_antnode_data_dir() {
+                if d.starts_with(&root) {
+                    o.service_data_dir_path = d.clone();
+                    o.service_log_dir_path = d;
+                    cx.count("user-mode-default-directories");
+                }
+            }
+        }
         o.env_variables = if pick(cx, 0.3) { Some(vec![("ANT_LOG".to_string(), "all".to_string()), ("RUST_BACKTRACE".to_string(), "1".to_string())]) } else { None };
         o.network_id = if pick(cx, 0.4) { Some(cx.rng.gen()) } else { None };
         o.auto_restart = pick(cx, 0.3);
@@ -262,6 +274,23 @@ impl Check for C20 {
             let _ = std::fs::remove_dir_all(&root);
             return;
         };
+        // ---- what the node does with --bootstrap-cache-dir: its start-up builds the cache store from the parsed peers
+        //      arguments and its own default configuration; the cache file must live in the directory the manager wrote
+        if let Some(dir) = &pa.bootstrap_cache_dir {
+            std::env::set_var("XDG_DATA_HOME", root.join("xdg"));
+            cx.eval();
+            cx.count("bootstrap-cache-dir-interpreted");
+            let built = ant_bootstrap::BootstrapCacheConfig::default_config().and_then(|cfg| ant_bootstrap::BootstrapCacheStore::new_from_peers_args(&pa, Some(cfg)));
+            match built {
+                Ok(store) => {
+                    let used = store.config().cache_file_path.clone();
+                    if used.parent() != Some(dir.as_path()) {
+                        cx.violation("antnode-misreads:bootstrap_cache_dir", format!("the manager writes --bootstrap-cache-dir {dir:?}; the node's start-up (new_from_peers_args with its default configuration) uses the cache file {used:?}"), w.clone());
+                    }
+                }
+                Err(e) => cx.violation("antnode-misreads:bootstrap_cache_dir", format!("building the node's cache store from the written peers arguments failed: {e}"), w.clone()),
+            }
+        }
         // ---- half of the services with a configured port are really started first (the manager then refreshes what it
         //      records from the node's RPC answers: own listener first, a relayed listener with another port second)
         if let (Some(port), true) = (node_port, cx.rng.gen_bool(0.5)) {
